@@ -3,7 +3,7 @@
    The concrete step is Outcome.new_defs (plugin_outcome.go) on the votes of Observe.honest_votes (plugin_observation.go). *)
 From stdpp Require Import gmap.
 From DS Require Import Base RepoConstants StreamValue Outcome OutcomeCodec Observe ObservationCodec Converge ConvergeProofs ValidateProofs.
-From DS Require OutcomeEndToEnd ReportsNoPanic OutcomeRoundTrip NvE2E HistoryLifts.
+From DS Require OutcomeEndToEnd ReportsNoPanic OutcomeRoundTrip NvE2E HistoryLifts StepTheorems NvHistory.
 
 (* the two vote limits in /repo are equal and positive, so the property's bound ceil(max(#remove, #add-or-replace)/5) applies *)
 Example C14_gen_limits : rm_limit = vote_limit /\ (0 < vote_limit)%nat /\ vote_limit = 5%nat /\ chan_cap = 2000%nat.
@@ -70,6 +70,36 @@ Theorem C14_correct_bytes_validate : forall codec_ok cf seq prev_bytes (i : Outc
   plugin_validate codec_ok (c_has_pred cf) seq (encode_observation rms ups vals ro) = Ok tt.
 Proof. exact OutcomeEndToEnd.correct_bytes_validate. Qed.
 Print Assumptions C14_correct_bytes_validate.
+(* one round, end to end: senders are correct nodes that all hold the same valid target (Plugin.Observation of their
+   inputs, marshalled in any map order) or arbitrary bytes; at most f faulty, more than f correct observations accepted; the
+   new channel set is the previous one with exactly the agreed batch applied (the first 5 additions / replacements and the
+   first 5 removals by ascending id), whatever the faulty senders vote *)
+Theorem C14_llo_agreed_round : forall h check codec_ok cf seq prev_bytes (ss : list OutcomeEndToEnd.lsender) prev next target,
+  ReportsNoPanic.bok prev_bytes -> OutcomeEndToEnd.lsenders_ok codec_ok cf seq prev_bytes ss -> 1 < seq ->
+  decode_outcome (c_pver cf) prev_bytes = Ok prev -> o_stage prev = Production -> verify_defs codec_ok target = true ->
+  (forall i rms ups vals, In (OutcomeEndToEnd.LCorrect i rms ups vals) ss -> OutcomeEndToEnd.oi_expected i = target) ->
+  (length (List.filter (fun p : option observation * bool => negb (snd p)) (OutcomeEndToEnd.tagged check codec_ok cf seq prev_bytes ss)) <= c_f cf)%nat ->
+  (c_f cf < length (List.filter (fun p : observation * bool => snd p)
+                     (StepTheorems.accept_tagged false (OutcomeEndToEnd.tagged check codec_ok cf seq prev_bytes ss))))%nat ->
+  (size (dom (o_defs prev) ∪ dom target) <= chan_cap)%nat ->
+  outcome_step h cf seq prev (map fst (OutcomeEndToEnd.tagged check codec_ok cf seq prev_bytes ss)) = Ok next -> o_stage next <> Retired ->
+  forall k, o_defs next !! k =
+    if bool_decide (k ∈ up_list (o_defs prev) target) then target !! k
+    else if bool_decide (k ∈ rm_votes (o_defs prev) target) then None else o_defs prev !! k.
+Proof. exact OutcomeEndToEnd.llo_agreed_round. Qed.
+Print Assumptions C14_llo_agreed_round.
+Example C14_nv_agreed_round :
+  decode_outcome (c_pver NvHistory.nv_cf) NvE2E.e6_prev_bytes = Ok NvE2E.e14_prev /\ o_stage NvE2E.e14_prev = Production /\
+  verify_defs (fun _ => true) NvE2E.e14_target = true /\
+  (forall i rms ups vals, In (OutcomeEndToEnd.LCorrect i rms ups vals) NvE2E.e6_ss -> OutcomeEndToEnd.oi_expected i = NvE2E.e14_target) /\
+  (length (List.filter (fun p : option observation * bool => negb (snd p)) NvE2E.e6_tagged) <= c_f NvHistory.nv_cf)%nat /\
+  (c_f NvHistory.nv_cf < length (List.filter (fun p : observation * bool => snd p) (StepTheorems.accept_tagged false NvE2E.e6_tagged)))%nat /\
+  (size (dom (o_defs NvE2E.e14_prev) ∪ dom NvE2E.e14_target) <= chan_cap)%nat /\
+  match outcome_step NvHistory.nv_h NvHistory.nv_cf 2 NvE2E.e14_prev (map fst NvE2E.e6_tagged) with
+  | Ok next => o_stage next <> Retired /\ o_defs next !! 7 = Some NvHistory.nv_def
+  | _ => False end.
+Proof. exact NvE2E.e14_round. Qed.
+
 (* non-vacuity: the three correct senders of props/NvE2E.v (C06 round: votes to add channel 7) *)
 Example C14_nv_bytes_validate :
   OutcomeEndToEnd.lsenders_ok (fun _ => true) NvHistory.nv_cf 2 NvE2E.e6_prev_bytes NvE2E.e6_ss /\
